@@ -55,7 +55,10 @@ class WrappingMatcher(mcore.Matcher):
         return self.__class__(newchild, boost=self.boost)
 
     def replace(self, minquality=0):
-        # Replace the child matcher
+        # Replace the child matcher. The child's qualities are not multiplied
+        # by the boost, so scale the threshold like skip_to_quality() does
+        if minquality and self.boost:
+            minquality = minquality / self.boost
         r = self.child.replace(minquality)
         if r is not self.child:
             # If the child changed, return a new wrapper on the new child
